@@ -1541,11 +1541,137 @@ pub fn g_p(fmt: Fmt, r: &Recipe) -> Case {
 }
 
 // ---------------------------------------------------------------------------
+// G-R: special 19-digit prefixes.  With more than 19 digits the moderate path is run on the prefix P and on
+// P + 1; the interesting (P, q) are those where a rounding boundary lies strictly between P * 10^q and
+// (P + 1) * 10^q.  For a random boundary P is an arbitrary 19-digit number; here P is one whose successor has
+// a special binary or decimal form (2^k - 1 -> 2^k: the normalised significand carries out of 64 bits;
+// 10^19 - 1 -> 10^19; d * 10^18 - 1), paired with every q for which such a boundary exists.  The inputs are the
+// usual boundary variants (tie, +-1 digit, zero / nine tails, cuts) of that boundary, all of which start with P.
+
+#[derive(Clone, Copy, Debug)]
+pub struct PrefixHard {
+    pub p: u64,
+    pub q: i32,
+    /// the float below the boundary
+    pub x: u64,
+}
+
+pub fn special_prefixes() -> Vec<u64> {
+    let mut v: Vec<u64> = Vec::new();
+    for k in 60..=63u32 {
+        v.push((1u64 << k) - 1);
+        v.push(1u64 << k);
+        v.push((1u64 << k) - 2);
+    }
+    v.push(1_000_000_000_000_000_000);
+    v.push(9_999_999_999_999_999_999);
+    v.push(9_999_999_999_999_999_998);
+    for d in [2u64, 5, 9] {
+        v.push(d * 1_000_000_000_000_000_000 - 1);
+    }
+    v
+}
+
+pub fn prefix_table(fmt: Fmt) -> &'static Vec<PrefixHard> {
+    use std::sync::OnceLock;
+    static T64: OnceLock<Vec<PrefixHard>> = OnceLock::new();
+    static T32: OnceLock<Vec<PrefixHard>> = OnceLock::new();
+    let build = |fmt: Fmt| -> Vec<PrefixHard> {
+        let (qlo, qhi) = match fmt {
+            Fmt::F32 => (-66i32, 21i32),
+            Fmt::F64 => (-345i32, 291i32),
+        };
+        let mut out = Vec::new();
+        for p in special_prefixes() {
+            let d0 = p.to_string().into_bytes();
+            let d1 = (p as u128 + 1).to_string().into_bytes();
+            for q in qlo..=qhi {
+                let a = oracle::expected_fast(fmt, &d0, b"", q as i64);
+                let b = oracle::expected_fast(fmt, &d1, b"", q as i64);
+                if a == b || a >= fmt.inf_bits() {
+                    continue;
+                }
+                let lo = Dec::from_input(&d0, b"", q as i64);
+                let up = Dec::from_input(&d1, b"", q as i64);
+                for x in [a.saturating_sub(1), a] {
+                    if x >= fmt.inf_bits() - 1 && x != a {
+                        continue;
+                    }
+                    if x >= fmt.inf_bits() {
+                        continue;
+                    }
+                    let h = oracle::hi(fmt, x);
+                    if h.cmp(&lo) == std::cmp::Ordering::Greater && h.cmp(&up) == std::cmp::Ordering::Less {
+                        out.push(PrefixHard { p, q, x });
+                    }
+                }
+            }
+        }
+        out
+    };
+    match fmt {
+        Fmt::F64 => T64.get_or_init(|| build(Fmt::F64)),
+        Fmt::F32 => T32.get_or_init(|| build(Fmt::F32)),
+    }
+}
+
+pub fn g_r(fmt: Fmt, r: &Recipe, lim: Limits) -> Case {
+    let t = prefix_table(fmt);
+    if t.is_empty() {
+        return g_b(fmt, r, lim);
+    }
+    let e = t[pick(r.sel[1], t.len())];
+    // the boundary variants that keep at least 20 digits (so that the prefix logic is in play)
+    const W: [u32; 9] = [14, 6, 12, 12, 16, 16, 8, 0, 0];
+    let mut c = midpoint_case(fmt, r, lim, "G-R special 19-digit prefix", e.x, &W);
+    c.expect = None;
+    c
+}
+
+// ---------------------------------------------------------------------------
+// G-T: exact tie integers (and their +-1 neighbours) of a chosen bit length, written out as plain integers:
+// the big integer then has a chosen number of limbs when its high 64 bits are taken (1, 2, 3, ... 32-bit
+// limbs; 1, 2 64-bit limbs), which selects the arm of `hi64`.
+
+pub fn g_t(fmt: Fmt, r: &Recipe) -> Case {
+    let p = fmt.mbits() as u64 + 1;
+    // total bit length of the tie integer (2M+1) * 2^j: from p+1 (the smallest integer tie) to p+1+120
+    let extra = match r.k[0] % 4 {
+        0 => (r.k[1] % 12) as u64,          // a few bits above the smallest ties
+        1 => (r.k[1] % (65 - p as u32).max(1)) as u64, // up to 64 bits in all
+        2 => 64 - p - 1 + (r.k[1] % 40) as u64,       // around the 64-bit edge and above
+        _ => (r.k[1] % 120) as u64,
+    };
+    let m = (r.a & ((1u64 << (p - 1)) - 1)) | (1u64 << (p - 1)); // p-bit significand
+    let tie = Nat::from_u128(2 * m as u128 + 1).shl(extra);
+    let n = match r.k[2] % 5 {
+        0 => tie.add_small(1),
+        1 => tie.sub(&Nat::one()),
+        _ => tie,
+    };
+    let digits: Vec<u8> = n.to_digits().iter().map(|d| d + b'0').collect();
+    let variant = match r.k[2] % 5 {
+        0 => "tie+1",
+        1 => "tie-1",
+        _ => "tie",
+    };
+    // occasionally the same value with a fraction ".0...01" / trailing exponent form
+    if r.k[3] % 4 == 0 {
+        let mut frac = vec![b'0'; (r.k[3] as usize >> 2) % 30];
+        frac.push(b'1' + (r.k[3] % 9) as u8);
+        return Case { int: digits, frac, exp: 0, family: "G-T tie integer by bit length", variant: "tie + fraction", layout: "split", expect: None };
+    }
+    Case { int: digits, frac: vec![], exp: 0, family: "G-T tie integer by bit length", variant, layout: "integer-only", expect: None }
+}
+
+// ---------------------------------------------------------------------------
 // mixtures
 
 /// The C01/C02 mixture: G-B 35, G-C 20, G-A 15, G-D 7, G-E 10, G-F 6, G-G 7.
 pub fn mixed(fmt: Fmt, r: &Recipe, lim: Limits) -> Case {
-    match pick_w(r.sel[0], &[33, 20, 14, 7, 10, 6, 7, 1, 1, 1]) {
+    match pick_w(r.sel[0], &[31, 20, 14, 7, 10, 6, 7, 1, 1, 1, 1, 1]) {
+        10 => g_r(fmt, r, lim),
+        11 => g_t(fmt, r),
         0 => g_b(fmt, r, lim),
         1 => g_c(fmt, r, lim),
         2 => g_a(fmt, r, lim),
